@@ -34,8 +34,8 @@ func Main(c *run.Ctx) {
 	n := c.Pick(360, 9000)
 	per := c.Pick(180, 1500)
 	cfgs := []chw.WriterCfg{
-		{DBTimer: 0.003, RetryAttempts: 1, ChannelsSample: 2, ChannelsTimeSeries: 2, FingerPrintType: 0},
-		{DBTimer: 0.002, RetryAttempts: 1, ChannelsSample: 1, ChannelsTimeSeries: 1, FingerPrintType: 1, DBBulk: 64 << 10},
+		{DBTimer: 0.003, RetryAttempts: 1, ChannelsSample: 2, ChannelsTimeSeries: 2},
+		{DBTimer: 0.002, RetryAttempts: 1, ChannelsSample: 1, ChannelsTimeSeries: 1, Bernstein: true, DBBulk: 64 << 10},
 	}
 	idx := 0
 	k := 0
